@@ -55,6 +55,8 @@ static struct {
 	bool nostdlib;
 	bool verbose;
 } flags;
+/* temporary object files created for linking */
+static struct array temps;
 static struct stageinfo stages[] = {
 	[PREPROCESS] = {.name = "preprocess"},
 	[COMPILE]    = {.name = "compile"},
@@ -215,6 +217,15 @@ succeeded(const char *phase, pid_t pid, int status)
 }
 
 static void
+rmtemps(void)
+{
+	char **temp;
+
+	arrayforeach (&temps, temp)
+		unlink(*temp);
+}
+
+static void
 buildobj(struct input *input, char *output)
 {
 	const char *phase;
@@ -234,6 +245,7 @@ buildobj(struct input *input, char *output)
 		if (fd < 0)
 			fatal("mkstemp:");
 		close(fd);
+		arrayaddptr(&temps, output);
 	} else if (output) {
 		if (strcmp(output, "-") == 0)
 			output = NULL;
@@ -319,10 +331,7 @@ buildexe(struct input *inputs, size_t ninputs, char *output)
 		fatal("%s: spawn \"%s\": %s", s->name, *(char **)s->cmd.val, strerror(errno));
 	if (waitpid(pid, &status, 0) < 0)
 		fatal("waitpid %ju:", (uintmax_t)pid);
-	for (i = 0; i < ninputs; ++i) {
-		if (inputs[i].filetype != OBJ)
-			unlink(inputs[i].name);
-	}
+	rmtemps();
 	exit(!succeeded(s->name, pid, status));
 }
 
